@@ -189,6 +189,7 @@ class _ReturnOrYieldFinder(ast.RopeNodeVisitor):
 
     def _Return(self, node):
         self.returns += 1
+        self.generic_visit(node)
 
     def _NamedExpr(self, node):
         self.named_expression += 1
